@@ -319,6 +319,9 @@ def main(tier):
         cfgs += [(2, 3, False, True, ()), (3, 2, False, True, ()), (2, 2, True, True, ()), (2, 2, False, True, (1,)), (3, 3, False, False, ()),
                  (2, 1, False, True, ()), (3, 2, True, False, ()), (3, 2, False, 'steal', ())]
     gate_layer(col, cfgs, depth=(2 if quick else 4), deadline=t0 + budget)
+    if not quick:
+        from . import miri_layer
+        miri_layer.unit_tests(col, PROP, ('jobserver::tests',), time.time() + 400)     # MAKEFLAGS parsing and the timer future, under Miri
     rc = col.finish()
     common.cleanup_scratch()
     return rc
